@@ -183,8 +183,17 @@ impl Generator {
             Get | BinGet | LongBinGet => !self.state.memo.is_empty(),
 
             // PUT operations - need something to memoize (and not MARK)
-            Put | BinPut | LongBinPut | Memoize => {
+            Put | LongBinPut | Memoize => {
                 self.state.stack.len() >= 1
+                    && self
+                        .peek()
+                        .is_some_and(|obj| !matches!(*obj.borrow(), StackObject::Mark))
+            }
+            // BINPUT has a 1-byte index: once the memo holds 256 entries the next free
+            // index no longer fits and would wrap around to an index that is already defined
+            BinPut => {
+                self.state.memo.len() < 256
+                    && self.state.stack.len() >= 1
                     && self
                         .peek()
                         .is_some_and(|obj| !matches!(*obj.borrow(), StackObject::Mark))
